@@ -500,7 +500,7 @@ def nodupB {α} [BEq α] : List α → Bool
 /-- the four views agree -/
 def wfB (s : Store) : Bool :=
   let rs := s.forest.recs
-  nodupB (rs.map (·.name)) && nodupB (rs.map (·.idx)) && rs.all (fun n => n.idx != 0 && n.name != outKey) &&
+  nodupB (rs.map (·.name)) && nodupB (rs.map (·.idx)) && rs.all (fun n => n.idx != 0 && decide (0 ≤ n.name)) &&
   -- name -> index and index -> name are exactly the payload pairs
   nodupB (s.nodeIdx.map (·.1)) && nodupB (s.nodeIdxRev.map (·.1)) &&
   s.nodeIdx.length == rs.length && s.nodeIdxRev.length == rs.length &&
